@@ -491,7 +491,26 @@ def r03_8(ctx):
     return rr
 
 
-RULES = [r03_1, r03_2, r03_3, r03_4, r03_5, r03_6, r03_7, r03_8]
+def r03_9(ctx):
+    rr = RuleResult(
+        "R03.9", "PASS",
+        "a weighted Reduction produces the block grid it advertises (x's): reduction() puts the weights on x's grid before the node is built and the lowering pairs blocks without re-unifying",
+        min_instances=1,
+    )
+    from .c09 import reduction_lowering_aligned
+
+    ok, why = reduction_lowering_aligned(ctx)
+    m = ctx.repo.mod("dask_array.reductions._reduction")
+    f = m.functions.get("reduction")
+    need(f is not None, "dask_array/reductions/_reduction.py::reduction")
+    c = f.construct + "::weights on x's grid"
+    rr.inst(c, aligned=ok, how=why)
+    if not ok:
+        ctx.finding(rr, c, why + ": Reduction.chunks advertises x's chunks, but lowering then unifies x with differently chunked weights into another grid - a consumer holding a per-block literal (repeat, .blocks, map_blocks(chunks=...)) raises while the program is optimized", func=f)
+    return rr
+
+
+RULES = [r03_1, r03_2, r03_3, r03_4, r03_5, r03_6, r03_7, r03_8, r03_9]
 
 LEVEL_TEXT = (
     "Static decision of the layout-barrier clause of C03 ('even when optimization internally chose a different block "
